@@ -20,9 +20,6 @@ theorem rdP_ok {vm : Vm} {i : Int} (h0 : 0 ≤ i) (h1 : i < vm.stackSize) :
     rdP vm i = .ok (vm.stack[i.toNat]?.getD .unknown) := by
   unfold rdP; simp; exact ⟨h0, h1⟩
 
-/-- slot `j` of the stack array -/
-def slot (vm : Vm) (j : Int) : Slot := if j < 0 then .unknown else vm.stack[j.toNat]?.getD .unknown
-
 theorem slot_set (vm : Vm) (hs : StackOk vm) (i j : Int) (s : Slot) (h0 : 0 ≤ i) (h1 : i < vm.stackSize) :
     slot { vm with stack := vm.stack.setIfInBounds i.toNat s } j = if j = i then s else slot vm j := by
   unfold slot
